@@ -2246,7 +2246,12 @@ async fn handle_packet(
         inner.created_at.elapsed().as_nanos() as u64,
         Ordering::Relaxed,
     );
-    let b = packet[0];
+    // An empty datagram (zero-length UDP payload, ChannelData with length 0, or a
+    // TURN Data indication carrying an empty DATA attribute) has no first byte to
+    // classify: ignore it instead of indexing into it.
+    let Some(&b) = packet.first() else {
+        return;
+    };
     if b < 2 {
         // STUN
         match StunMessage::decode(packet) {
